@@ -418,7 +418,7 @@ def gen_specs(ctx, rng):
 # exact correspondence with the Coq model (Q instance, vm_compute)
 
 def qlist(v):
-    return "[" + "; ".join(vlib.coq_Q(x) for x in v) + "]"
+    return "[" + "; ".join(cq(x) for x in v) + "]"
 
 
 def qmat(m):
@@ -428,16 +428,34 @@ def qmat(m):
 def qtens(a):
     a = np.asarray(a)
     if a.ndim == 0:
-        return "(Sc %s)" % vlib.coq_Q(float(a))
+        return "(Sc %s)" % cq(float(a))
     return "(Vec [" + "; ".join(qtens(x) for x in a) + "])"
 
 
 CORR_HEADER = """From Coq Require Import List ZArith QArith Qabs Bool.
+From Bignums Require Import BigQ.
 From WG Require Import Lib.Lagrange Lib.Cheb Lib.Spectral.
 Import ListNotations.
 Local Open Scope nat_scope.
-Definition QO := QOps.
+(* the generic model of Lib.Spectral instantiated over machine-integer based rationals *)
+Definition bq (n : Z) (d : positive) : bigQ := BigQ.of_Q (Qmake n d).
+Definition QO : Ops bigQ :=
+  mkOps bigQ BigQ.zero BigQ.one BigQ.add_norm BigQ.sub_norm BigQ.mul_norm BigQ.div_norm
+        (fun a => BigQ.eq_bool a BigQ.zero) (fun n => BigQ.of_Q (Qnat n)).
+Definition bclose (tol a b : bigQ) : bool :=
+  match BigQ.compare (BigQ.sub a b) tol with
+  | Gt => false
+  | _ => match BigQ.compare (BigQ.sub b a) tol with Gt => false | _ => true end
+  end.
+Definition Mclose tol := mclose (bclose tol).
+Definition Lclose tol := lclose (bclose tol).
+Definition Tsame tol := tsame (bclose tol).
 """
+
+
+def cq(x):
+    q = vlib.frac(x)
+    return "(bq (%d) %d)" % (q.numerator, q.denominator)
 
 
 def corr_matrices(ctx, sizes):
@@ -451,25 +469,25 @@ def corr_matrices(ctx, sizes):
         for d in DIRS:
             full = grid.getCompactCoordinates(True, d)
             g = "g%s_%d_%d" % (d, M, N)
-            hdr.append("Definition %s : list Q := %s." % (g, qlist(full)))
+            hdr.append("Definition %s : list bigQ := %s." % (g, qlist(full)))
             for ep in (False, True):
                 size = axis_size(M, N, d, ep)
                 p = Polynomial(np.zeros(size), grid, "Cardinal", d, ep)
-                tol = vlib.coq_Q(Fraction(1, 10 ** 9))
+                tol = cq(Fraction(1, 10 ** 9))
                 cd, D = COQDIR[d], "true" if ep else "false"
                 # tnMatrix of changeBasis
                 q = Polynomial(np.identity(size), grid, ("Chebyshev", "Array"), (d, "z"),
                                (ep, False))
                 q.changeBasis(("Cardinal", "Array"))
-                terms.append("mclose %s (tnMatrix QO %s %s %s %d %d) %s" % (
+                terms.append("Mclose %s (tnMatrix QO %s %s %s %d %d) %s" % (
                     tol, cd, D, g, M, N, qmat(q.coefficients)))
                 info.append(("tnMatrix", M, N, d, ep))
-                terms.append("mclose %s (chebyshevMatrix QO %s %s %s) %s" % (
+                terms.append("Mclose %s (chebyshevMatrix QO %s %s %s) %s" % (
                     tol, cd, D, g, qmat(p.matrix("Chebyshev", d, ep))))
                 info.append(("chebyshevMatrix", M, N, d, ep))
                 for b in ("Cardinal", "Chebyshev"):
-                    terms.append("mclose %s (derivMatrix QO %s %s %s %s) %s" % (
-                        vlib.coq_Q(Fraction(M * M * N * N, 10 ** 9)), b, cd, D, g,
+                    terms.append("Mclose %s (derivMatrix QO %s %s %s %s) %s" % (
+                        cq(Fraction(M * M * N * N, 10 ** 9)), b, cd, D, g,
                         qmat(p.derivMatrix(b, d, ep))))
                     info.append(("derivMatrix" + b, M, N, d, ep))
                     # rows of evaluate at an off-grid, a grid and a boundary point
@@ -478,15 +496,15 @@ def corr_matrices(ctx, sizes):
                     for x in (ctx.rng.uniform(-1, 1), full[len(full) // 2], full[-1],
                               full[0]):
                         row = q.evaluate(np.array([[x]]), axes=(0,))[0]
-                        terms.append("lclose %s (evalRow QO %s %s %s %s %d %d %s) %s" % (
-                            tol, b, cd, D, g, M, N, vlib.coq_Q(x), qlist(row)))
+                        terms.append("Lclose %s (evalRow QO %s %s %s %s %d %d %s) %s" % (
+                            tol, b, cd, D, g, M, N, cq(x), qlist(row)))
                         info.append(("evalRow" + b, M, N, d, ep, x))
                 # integration factors sqrt(1-x^2) w_k:  (f/pi)^2 = (1-x^2) (w/pi)^2
                 q = Polynomial(np.identity(size), grid, ("Cardinal", "Array"), (d, "z"),
                                (ep, False))
                 f = q.integrate(0).coefficients
                 sq = [Fraction(float(v)) ** 2 / pi2 for v in f]
-                terms.append("lclose %s (intFactorSq QO %s %s %s %d %d) %s" % (
+                terms.append("Lclose %s (intFactorSq QO %s %s %s %d %d) %s" % (
                     tol, cd, D, g, M, N, qlist(sq)))
                 info.append(("intFactorSq", M, N, d, ep))
         yield (M, N), "\n".join(hdr), terms, info
@@ -501,7 +519,7 @@ def corr_tensor_terms(ctx, spec, rng):
     b0, dirs, eps = tuples(spec)
     rank = len(orc)
     polyaxes = [i for i, o in enumerate(orc) if o is not None]
-    tol = vlib.coq_Q(Fraction(int(1 + np.max(np.abs(A))) * 50 * M * M * N * N, 10 ** 9))
+    tol = cq(Fraction(int(1 + np.max(np.abs(A))) * 50 * M * M * N * N, 10 ** 9))
     terms = []
 
     def g(i):
@@ -523,22 +541,22 @@ def corr_tensor_terms(ctx, spec, rng):
             lhs = "(apply_axis QO %d (tnMatrix QO %s %d %d) %s)" % (i, ax(i), M, N, lhs)
         else:
             rhs = "(apply_axis QO %d (tnMatrix QO %s %d %d) %s)" % (i, ax(i), M, N, rhs)
-    terms.append(("changeBasis", "tsame %s %s %s" % (tol, lhs, rhs)))
+    terms.append(("changeBasis", "Tsame %s %s %s" % (tol, lhs, rhs)))
     # derivative along all polynomial axes
     p = Polynomial(coeff.copy(), grid, b0, dirs, eps)
     dp = p.derivative(tuple(polyaxes))
     lhs = qtens(coeff)
     for i in polyaxes:
         lhs = "(apply_axis QO %d (derivMatrix QO %s %s) %s)" % (i, b0[i], ax(i), lhs)
-    terms.append(("derivative", "tsame %s %s %s" % (tol, lhs, qtens(dp.coefficients))))
+    terms.append(("derivative", "Tsame %s %s %s" % (tol, lhs, qtens(dp.coefficients))))
     # evaluate at one point along all polynomial axes (highest axis first)
     pts = [rng.uniform(-1, 1) for _ in polyaxes]
     got = p.evaluate(np.array(pts)[:, None], axes=tuple(polyaxes))[0]
     lhs = qtens(coeff)
     for j, i in reversed(list(enumerate(polyaxes))):
         lhs = "(contract_axis QO %d (evalRow QO %s %s %d %d %s) %s)" % (
-            i, b0[i], ax(i), M, N, vlib.coq_Q(pts[j]), lhs)
-    terms.append(("evaluate", "tsame %s %s %s" % (tol, lhs, qtens(got))))
+            i, b0[i], ax(i), M, N, cq(pts[j]), lhs)
+    terms.append(("evaluate", "Tsame %s %s %s" % (tol, lhs, qtens(got))))
     return terms
 
 
